@@ -144,6 +144,12 @@ def _clone(v, memo):
         return o
     if isinstance(v, tuple):
         return tuple(_clone(x, memo) for x in v)
+    if isinstance(v, SwapStore):
+        if id(v) in memo:
+            return memo[id(v)]
+        o = SwapStore(_clone(v.base, memo))
+        memo[id(v)] = o
+        return o
     if isinstance(v, ArrStore):
         if id(v) in memo:
             return memo[id(v)]
@@ -167,6 +173,46 @@ class ArrStore:
         self.kind = kind
         self.name = name
         self.finite = None    # per-element finiteness predicate (None = all finite)
+
+
+class SwapStore:
+    """The memory of a 2-D array seen with its two axes swapped (`a.swapaxes(0, 1)`, `a.T` as an
+    lvalue): reads and in-place writes go to the base store with the indices exchanged."""
+
+    def __init__(self, base):
+        self.base = base
+        self.kind = base.kind
+        self.name = base.name + '.T'
+
+    @property
+    def shape(self):
+        return (self.base.shape[1], self.base.shape[0])
+
+    @property
+    def fn(self):
+        bf = self.base.fn
+        return lambda p, bf=bf: bf((p[1], p[0]))
+
+    @fn.setter
+    def fn(self, f):
+        self.base.fn = lambda q, f=f: f((q[1], q[0]))
+
+    @property
+    def finite(self):
+        bf = self.base.finite
+        return None if bf is None else (lambda p, bf=bf: bf((p[1], p[0])))
+
+    @finite.setter
+    def finite(self, f):
+        self.base.finite = None if f is None else (lambda q, f=f: f((q[1], q[0])))
+
+    @property
+    def frozen(self):
+        return getattr(self.base, 'frozen', False)
+
+    @property
+    def maybe_int(self):
+        return getattr(self.base, 'maybe_int', False)
 
 
 def view_of(store, off=None, shape=None):
@@ -1147,7 +1193,7 @@ class Executor:
                 # NOTE: a transposed view is modelled as a value (reads only)
                 return [(st, SArr((v.shape[1], v.shape[0]),
                                   lambda idx, f=snap(v): f((idx[1], idx[0])), v.kind))]
-            if attr in ('sum', 'any', 'all', 'copy', 'astype', 'min', 'max', 'ravel'):
+            if attr in ('sum', 'any', 'all', 'copy', 'astype', 'min', 'max', 'ravel', 'swapaxes'):
                 return [(st, ('arrmethod', v, attr))]
         if isinstance(v, SSeq):
             if attr == 'size':
